@@ -568,6 +568,18 @@ int main(int argc, char **argv) {
             ENTER(); RETCODE rc = adfUndelEntry(vol, vol->curDirPtr, a[2][0] == 'L' ? (na > 3 ? recall_name(a[3]) : last_lookup) : atoi(a[2])); LEAVE();
             out(rc == RC_OK ? "ok" : "err rc=%d", rc);
         }
+        else if (!strcmp(c, "dellist")) { /* dellist : adfGetDelEnt (the deleted entries whose header blocks are still free), printed and released */
+            bail_armed = 1;
+            if (sigsetjmp(bail, 1)) { in_lib = 0; bail_armed = 0; out("hang"); fflush(stdout); _exit(3); }
+            ENTER(); struct AdfList *dl = adfGetDelEnt(vol); LEAVE(); bail_armed = 0;
+            int nd = 0;
+            for (struct AdfList *c_ = dl; c_; c_ = c_->next) {
+                struct GenBlock *g = c_->content;
+                printf("%d D sect=%d parent=%d type=%d sectype=%d name=", lineno, g->sect, g->parent, g->type, g->secType); printhex(g->name); putchar('\n'); nd++;
+            }
+            ENTER(); adfFreeDelList(dl); LEAVE();
+            out("ok n=%d", nd);
+        }
         else if (!strcmp(c, "bootinst")) {
             static uint8_t code[1024]; memset(code, 0x4e, sizeof code);
             ENTER(); RETCODE rc = adfInstallBootBlock(vol, code); LEAVE();
